@@ -109,6 +109,8 @@ class Sym:
             return x
         if isinstance(x, SymBool):
             raise TypeError('SymBool used as a number')
+        if hasattr(x, 'ndim') and hasattr(x, 'item') and x.ndim == 0:
+            return Sym.lift(x.item())
         return Sym(Poly.const(x))
 
     # ---- inspection ----
